@@ -41,7 +41,11 @@ class TypeScriptValueExtractor:
 
     def get_node_text(self, node: Node, content: str) -> str:
         """Get text content of a node."""
-        return content[node.start_byte : node.end_byte]
+        # tree-sitter offsets count bytes: slicing the str with them goes wrong after the first
+        # non-ASCII character of the file
+        if node.text is not None:
+            return str(node.text.decode("utf-8", "replace"))
+        return content.encode("utf-8")[node.start_byte : node.end_byte].decode("utf-8", "replace")
 
     def get_value_string(self, node: Node, content: str) -> str | None:
         """Get string representation of a value node."""
